@@ -75,6 +75,8 @@ def do_run(ids, tier):
             print(f"{hid}: patch does not apply")
             sh(["git", "-C", "/repo", "checkout", "HEAD", "--", "."])
             continue
+        ev = VERIF / "evidence" / f"{p}.json"
+        saved = ev.read_bytes() if ev.exists() else None
         try:
             t = time.time()
             rc, o = sh(["python3", "tools/check.py", "--property", p, "--tier", tier], cwd=VERIF)
@@ -90,6 +92,8 @@ def do_run(ids, tier):
                     pass
         finally:
             sh(["git", "-C", "/repo", "checkout", "HEAD", "--", "."])
+            if saved is not None:               # evidence files describe runs on the unchanged tree only
+                ev.write_bytes(saved)
         old = json.loads((d / "result.json").read_text()) if (d / "result.json").exists() else {"runs": []}
         old["runs"].append(res)
         old["last_outcome"] = res["outcome"]
